@@ -26,6 +26,23 @@ out = {
  "not_applicable": [],
  "notes": meta.get("notes", "")
 }
+def default_text(c):
+    fn = "; ".join(c.get("functions", []))[:600]
+    b = c.get("bounds", {}).get("quick", "")[:700]
+    out = c.get("outside", [])
+    t = ("Bounded symbolic execution of the real SSA of: " + fn + ". Every assertion on every path within the bound is discharged by the SMT solver (unsat = holds for all inputs of that path) or yields a replayed counterexample. Quick bound: " + b + ".")
+    if out:
+        t += " Outside the claim: " + "; ".join(out)[:500] + "."
+    return t
+
+def default_note(c):
+    parts = ["trusted: go/ssa construction, gosym's operational semantics (cross-checked by concrete differential runs against the native build), z3 4.8.12/5.1.0, the harness's reference model"]
+    if c.get("stubs"):
+        parts.append("stubs: " + "; ".join(c["stubs"])[:500])
+    if c.get("assumptions"):
+        parts.append("assumes: " + "; ".join(c["assumptions"])[:600])
+    return ". ".join(parts)
+
 for p in props:
     pid = p['id']
     if pid in checks:
@@ -38,8 +55,8 @@ for p in props:
          "evidence_file": f"evidence/{pid}.json",
          "replay_cmd_template": "./engine/bin/verifctl replay {path}",
          "engine": "gosym",
-         "level_claimed": {"category": c.get("level", "model_checking"), "text": m.get("text", c["title"]), "design_ref": m.get("design_ref", "DESIGN.md §4 " + pid)},
-         "level_note": m.get("note", "trusted: go/ssa construction, gosym's operational semantics, z3; harness reference model; stubs listed in evidence"),
+         "level_claimed": {"category": c.get("level", "model_checking"), "text": m.get("text", default_text(c)), "design_ref": m.get("design_ref", "DESIGN.md §4 " + pid + " and §10")},
+         "level_note": m.get("note", default_note(c)),
          "technique": m.get("technique", "bounded symbolic execution of the real Go SSA, assertions discharged by z3 (SMT, bit-vectors)")
         })
     else:
